@@ -24,6 +24,9 @@ LEN_FNS = (
     'alloc::collections::btree::map::BTreeMap::<K, V, A>::len',
     'std::collections::hash::map::HashMap::<K, V, S>::len',
     'std::collections::hash::set::HashSet::<T, S>::len',
+    'std::collections::hash::map::HashMap::<K, V, S, A>::len',
+    'std::collections::hash::set::HashSet::<T, S, A>::len',
+    'alloc::collections::btree::set::BTreeSet::<T, A>::len',
     'alloc::collections::vec_deque::VecDeque::<T, A>::len',
     'core::iter::traits::exact_size::ExactSizeIterator::len',
 )
@@ -610,11 +613,19 @@ class Ranges:
             ei = self.enumerate_index_bound(c)
             if ei is not None and depth < 6:
                 lo = max(lo, 0)
-                if ei != 'len':
+                if isinstance(ei, tuple) and ei and ei[0] == 'lenof':
+                    b = self._range_canon(('len', ei[1]), bb, None, use_facts, depth + 1)
+                    hi = min(hi, b[1] - 1, LEN_MAX - 1)
+                elif ei != 'len':
                     b = self.range_of(ei, bb, use_facts, depth + 1)
                     hi = min(hi, b[1] - 1)
                 else:
                     hi = min(hi, LEN_MAX - 1)
+            # the index a closure receives from `xs.iter().enumerate().map(|(i, x)| ..)`: below the length of xs as known where the closure is used
+            if c == ('place', ('arg', 2), ('0',)) and self.B.b.get('kind') == 'Closure' and getattr(self.B, 'PROGRAM', None) is not None and depth < 4:
+                pb = self._closure_index_bound()
+                if pb is not None:
+                    lo, hi = max(lo, 0), min(hi, pb)
         if k == 'len':
             al = self.len_alias(c)
             if al is not None and depth < 6:
@@ -709,6 +720,13 @@ class Ranges:
         """len(x) where x is the slice produced by nom `take(n)(input)?` equals n."""
         if c[0] != 'len':
             return None
+        if c[1][0] == 'call' and str(c[1][1]).endswith('Iterator::collect'):
+            # xs.iter().copied().collect(): as many elements as xs has (no adaptor that drops or adds any)
+            ct = self.B.blocks[c[1][2]]['t']
+            src = self._iter_source(ct['args'][0]) if ct.get('args') else None
+            if src is not None:
+                return ('len', src)
+            return None
         t, fld = self._call_of_payload(c[1])
         if t is None or fld != '1':
             return None
@@ -717,6 +735,33 @@ class Ranges:
             o = self.B.origin(t['args'][0])
             if o[0] == 'call' and o[1] and o[1].startswith('nom::bytes::complete::take'):
                 return canon(self.B, self.B.blocks[o[2]]['t']['args'][0])
+        return None
+
+    def _iter_source(self, op):
+        """canon of the collection an iterator expression walks once, element by element (iter / into_iter, then only adaptors
+        that keep the number of elements: copied, cloned, map, enumerate, rev, by_ref); None otherwise"""
+        cur = op
+        for _ in range(8):
+            o = self.B.origin(cur)
+            if o[0] != 'call' or not o[1]:
+                return None
+            ct = self.B.blocks[o[2]]['t']
+            nm = o[1].rsplit('::', 1)[-1]
+            if not ct.get('args'):
+                return None
+            if nm in ('iter', 'into_iter', 'iter_mut', 'keys', 'values') and not any(x in o[1] for x in ('Iterator::', 'adapters::', 'IntoIterator')):
+                return canon(self.B, ct['args'][0])
+            if nm == 'into_iter' and 'IntoIterator' in o[1]:
+                # `for x in it`: into_iter of something that already is an iterator, or of a collection
+                inner = self.B.origin(ct['args'][0])
+                if inner[0] == 'call' and inner[1] and ('Iterator::' in inner[1] or inner[1].rsplit('::', 1)[-1] in ('iter', 'iter_mut')):
+                    cur = ct['args'][0]
+                    continue
+                return canon(self.B, ct['args'][0])
+            if nm in ('copied', 'cloned', 'map', 'enumerate', 'rev', 'by_ref', 'inspect', 'peekable'):
+                cur = ct['args'][0]
+                continue
+            return None
         return None
 
     def suffix_parent(self, c):
@@ -864,6 +909,44 @@ class Ranges:
             return canon(self.B, o[1]['ops'][0]), canon(self.B, o[1]['ops'][1])
         return None
 
+    def _closure_index_bound(self):
+        """largest index the closure of this body can receive as `.0` of its argument when it is handed to an adaptor of an
+        `enumerate()` chain in the function that creates it; None when that is not the (only) use"""
+        if hasattr(self, '_cib'):
+            return self._cib
+        self._cib = None
+        P = self.B.PROGRAM
+        me = self.B.path
+        parent = me.rsplit('::{closure', 1)[0]
+        best = None
+        for q in list(P.F.bodies):
+            if q != parent and not q.startswith(parent + '::{'):
+                continue
+            if q == me:
+                continue
+            PB = P.B(q)
+            for bb, t in PB.calls():
+                if len(t['args']) < 2:
+                    continue
+                o = PB.origin(t['args'][1])
+                if not (o[0] == 'agg' and o[1].get('ak') == 'closure' and o[1].get('def') == me):
+                    continue
+                nm = (callee_of(t)[0] or '').rsplit('::', 1)[-1]
+                if nm not in ('map', 'for_each', 'filter_map', 'all', 'any', 'find_map', 'flat_map', 'filter', 'position', 'try_for_each'):
+                    return None
+                RP = Ranges(PB)
+                src = None
+                oe = PB.origin(t['args'][0])
+                if oe[0] == 'call' and oe[1] and oe[1].endswith('::enumerate'):
+                    src = RP._iter_source(PB.blocks[oe[2]]['t']['args'][0])
+                if src is None:
+                    return None
+                r = RP._range_canon(('len', src), bb, None, True, 0)
+                hi = r[1] - 1
+                best = hi if best is None else max(best, hi)
+        self._cib = best
+        return best
+
     def enumerate_index_bound(self, c):
         """c = the index component of an item yielded by `.enumerate()` (Some-payload .0 of Iterator::next):
         the operand n of a `.take(n)` in the same adaptor chain (index < n), or 'len' when there is none (index < length)."""
@@ -893,6 +976,10 @@ class Ranges:
             cur = ct['args'][0]
         if not seen_enum:
             return None
+        if take_n is None and not skipped:
+            src = self._iter_source(t['args'][0])
+            if src is not None:
+                return ('lenof', src)
         return take_n if (take_n is not None and not skipped) else 'len'
 
     def infeasible(self, bb):
